@@ -451,12 +451,12 @@ def _work(item):
     seqs, cfgs, bound = payload
     for name, source in seqs:
         try:
-            core.watchdog(15, _explore_stream, name, source, cfgs, bound, tier, st)
+            core.watchdog(15 + len(source) // 500, _explore_stream, name, source, cfgs, bound, tier, st)
         except core.WatchdogTimeout:
             out = core.Outcome()
             out.bad("nontermination:watchdog",
                     f"iterating stream {name} ({len(source)} B) under all configurations did not "
-                    f"finish within the 15 s wall-clock backstop")
+                    f"finish within the wall-clock backstop ({15 + len(source) // 500} s)")
             st.add({"kind": "iter", "stream": name, "source": source,
                     "cfg": {"q": 1, "v": 1, "p": True, "h": True}, "watchdog": True}, out)
             st.capped = True
